@@ -287,6 +287,8 @@ def binSem (opcode : Nat) : Option (W → W → M W) :=
       else if a = intMin ∧ b = 0xFFFFFFFF#32 then throw (.ub "OpSDiv overflow")
       else pure (BitVec.sdiv a b))
   | 136 => some (fun a b => pure (fbin (· / ·) a b))
+  | 140 => some (fun a b => pure (fbin fremF a b))                                   -- OpFRem: sign of the dividend (truncated quotient)
+  | 141 => some (fun a b => pure (fbin (fun x y => x - y * (x / y).floor) a b))      -- OpFMod: sign of the divisor (floored quotient)
   | 137 => some (fun a b => if b = 0#32 then throw (.ub "OpUMod by zero") else pure (a % b))
   | 138 => some (fun a b =>
       if b = 0#32 then throw (.ub "OpSRem by zero")
